@@ -1,8 +1,8 @@
 (** C03 — events due at the same instant run in the order they were requested (FIFO). *)
 From Coq Require Import List ZArith NArith Bool.
 Import ListNotations.
-From GS Require Import Num NumZ EventLoop.
-From GS.Proofs Require Import Aux EventLoopP.
+From GS Require Import Num NumZ EventLoop Kernel.
+From GS.Proofs Require Import Aux EventLoopP KernelP KernelP3.
 
 (** Requests accepted later carry larger sequence numbers. *)
 Theorem C03_sequence_is_scheduling_order :
@@ -38,6 +38,47 @@ Theorem C03_ties_by_sequence :
     feqb A (ev_ts a) (ev_ts b) = true -> ev_lt A a b = N.ltb (ev_seq a) (ev_seq b).
 Proof. intros F A P a b. apply ev_lt_same_ts. Qed.
 
+(** Stronger form: over every history the popped events are STRICTLY increasing in
+    (timestamp, sequence number) — later in time, or same instant and scheduled later. *)
+Theorem C03_pops_strictly_sorted :
+  forall (F : Type) (A : ArithOps F), OrderLaws A -> forall (P : Type) (l : eloop F P) (ops : list (el_op F P)),
+    el_inv A l ->
+    let '(_, pop, _, _) := el_ghost A l ops in
+    chain_sorted A None pop /\
+    (forall p1 x p2 y p3, pop = p1 ++ x :: p2 ++ y :: p3 -> ev_lt A x y = true).
+Proof.
+  intros F A OL P l ops Hinv. pose proof (el_pops_sorted A OL l ops None Hinv I) as H.
+  destruct (el_ghost A l ops) as [[[a b] c] d]. split; [exact H|]. apply (chain_sorted_pairwise A OL None). exact H.
+Qed.
+
+(** Whole simulations, every handlers and every protocol program: the events executed in a run
+    are strictly increasing in (timestamp, sequence number).  Since a request accepted later gets
+    a larger sequence number, events due at the same instant run in the order they were
+    requested; since the delivery time is send time (+ a fixed delay) and + delay is monotone,
+    messages on one link are received in the order sent, and same-instant timers of a node fire
+    in the order set. *)
+Theorem C03_whole_runs_fifo :
+  forall (F : Type) (A : ArithOps F), OrderLaws A -> forall (P H T : Type) (hk : hooks F P H T) (c : kcfg F)
+         (fuel : nat) (s : kstate F P H) (lo : option (event F P)),
+    k_inv A s -> lb_opt A (k_el s) lo ->
+    let '(_, items, _) := k_run A hk c fuel s in chain_sorted A lo (exec_events items).
+Proof.
+  intros F A OL P H T hk c fuel s lo Hinv Hlb. pose proof (k_run_exec_sorted A OL hk c fuel s lo Hinv Hlb) as Hs.
+  destruct (k_run A hk c fuel s) as [[s' items] fin]. exact (proj1 Hs).
+Qed.
+
+Theorem C03_requests_numbered_in_order :
+  forall (F : Type) (A : ArithOps F) (P T : Type) (l : eloop F P) (reqs : list (F * P)),
+    sched_seqs (snd (sched_all A (T:=T) l reqs)) =
+    map N.of_nat (seq (N.to_nat (el_seq l)) (length (sched_seqs (snd (sched_all A (T:=T) l reqs))))).
+Proof. intros. apply (proj1 (sched_all_seqs A l reqs)). Qed.
+
+(** a later send on the same link is not due earlier: the delay is added monotonically *)
+Theorem C03_fixed_delay_is_monotone :
+  forall (F : Type) (A : ArithOps F), OrderLaws A -> forall (t1 t2 d : F),
+    fleb A t1 t2 = true -> fleb A (fadd A t1 d) (fadd A t2 d) = true.
+Proof. intros F A OL t1 t2 d. apply (add_mono_l A OL). Qed.
+
 Example C03_example :
   snd (el_run Z_ops (el_init Z_ops)
         [OpSchedule 5%Z 0%nat; OpSchedule 5%Z 1%nat; OpSchedule 5%Z 2%nat; OpSchedule 5%Z 3%nat; OpSchedule 5%Z 4%nat;
@@ -50,3 +91,7 @@ Print Assumptions C03_sequence_is_scheduling_order.
 Print Assumptions C03_fifo.
 Print Assumptions C03_heap_contract_determines_pop.
 Print Assumptions C03_ties_by_sequence.
+Print Assumptions C03_pops_strictly_sorted.
+Print Assumptions C03_whole_runs_fifo.
+Print Assumptions C03_requests_numbered_in_order.
+Print Assumptions C03_fixed_delay_is_monotone.
